@@ -1,0 +1,12 @@
+//go:build verif
+
+package agent
+
+// verifYieldTunnel marks the point between reading application bytes and
+// sealing them in the file streaming loops. It shares the package's single
+// scheduling hook (verifYieldHook, installed with VerifSetYieldHook).
+func verifYieldTunnel(point string) {
+	if h := verifYieldHook; h != nil {
+		h(point)
+	}
+}
